@@ -3,7 +3,7 @@
    examples, and the witnesses that the unambiguity side conditions of [wfb] are needed. *)
 From Coq Require Import ZArith QArith String Ascii List Bool Lia.
 From PT Require Import Str Dec Py Loaders Formula FormulaMachine AtomEnv Pyparse TableEnv Grammar FormulaAlg.
-From PT Require Import C01Lex C01Wf C01Sem C01Accept C01Consume C01Reject C01Positions.
+From PT Require Import C01Lex C01Wf C01Sem C01Accept C01Consume C01Reject C01Positions C01Stuck.
 Import ListNotations.
 Open Scope string_scope.
 
@@ -182,4 +182,27 @@ Proof.
               (GExp "" [(s0, GImp None [En "O" "2"; En "Xx" "3"])] "" (Some "3")) [(s0, GImp None [El "O"])]).
     apply AG_exp. apply (AC [] s0 (GImp None [En "O" "2"; En "Xx" "3"]) []).
     apply (AG_imp None [En "O" "2"] (En "Xx" "3") []).
+Qed.
+
+(* malformed tags and counts, inside an open parenthesis after a complete group: instances of the
+   left-over theorems of C01Stuck.v *)
+Definition pos_nested : bpos := mkPos [(s0, GImp None [En "H" "2"])] (mkSep " " false "") (BExp "" [] s0 (BImp None [El "C"])).
+
+Example malformed_examples :
+  r_pos pos_nested = "H2 (C" /\
+  ~ accepted the_ptable "H2 (CO[018]3)2" /\ ~ accepted the_ptable "H2 (CO[1.5])2" /\
+  ~ accepted the_ptable "H2 (CO{+2})2" /\ ~ accepted the_ptable "H2 (CO02)2" /\
+  ~ accepted the_ptable "H2 (CO*2)2".
+Proof.
+  split; [reflexivity|]. repeat split.
+  - change "H2 (CO[018]3)2" with (r_pos pos_nested ++ r_elem (El "O") ++ String "[" "018]3)2").
+    apply bad_isotope_tag_rejected; try reflexivity.
+  - change "H2 (CO[1.5])2" with (r_pos pos_nested ++ r_elem (El "O") ++ String "[" "1.5])2").
+    apply bad_isotope_tag_rejected; reflexivity.
+  - change "H2 (CO{+2})2" with (r_pos pos_nested ++ r_elem (El "O") ++ String "{" "+2})2").
+    apply bad_ion_tag_rejected; reflexivity.
+  - change "H2 (CO02)2" with (r_pos pos_nested ++ r_elem (El "O") ++ "0" ++ String "2" ")2").
+    apply leading_zero_anywhere; reflexivity.
+  - change "H2 (CO*2)2" with (r_pos pos_nested ++ r_elem (El "O") ++ String "*" "2)2").
+    apply garbage_after_element_rejected; reflexivity.
 Qed.
